@@ -39,6 +39,7 @@ EXPLANATION = (
 ASSUMPTIONS = ["copy.deepcopy, dict displays with ** and dict methods have their Python semantics",
                "get_fluid(net).name does not depend on the options"]
 TECHNIQUE = "exhaustive abstract interpretation of the option merge over provenance tokens, compared with an executable model of the documentation; writer/reader table agreement"
+EXPLANATION += (' ' + '(R14.10) the functions that resolve options and modes (init_options, _iteration_check, _mode_check, set_user_pf_options, get_net_option(s)) keep no state between calls: no memoising decorator, no module-level container changed, no global rebound -- a deprecated value is mapped every time, not only the first.')
 
 STAGE_KEYS = ("max_iter_hyd", "max_iter_therm", "max_iter_bidirect")
 
